@@ -2186,7 +2186,17 @@ func (r *Raft) isMember(id string) bool {
 // isSingleServerCluster returns true if the current configuration only contains
 // this node as a voting member.
 func (r *Raft) isSingleServerCluster() bool {
-	return len(r.configuration.Members) == 1 && r.configuration.IsVoter[r.id]
+	// Non-voting members do not count: a node that is the only voter is a majority
+	// of the voters by itself, however many non-voting members there are.
+	if !r.isVoter(r.id) {
+		return false
+	}
+	for id := range r.configuration.Members {
+		if id != r.id && r.isVoter(id) {
+			return false
+		}
+	}
+	return true
 }
 
 // pendingConfigurationChange returns true if the current configuration
